@@ -234,6 +234,12 @@ func (r *ref) node(t T) {
 			r.blk(t)
 			w("]")
 		})
+	// WithChildren(ctx, nil): the callee gets no block; the layer's own block
+	// is rendered nowhere.
+	case "fwdnilslot", "fwdnilafter", "fwdniltwice":
+		r.gen(t.K[6:len(t.K)-1], t.M+".f", func() {})
+	case "fwdnil2":
+		r.gen("slot", t.M+".g.f", func() {})
 	case "fwdsame":
 		r.gen("after", t.M+".f", func() { r.blk(t) })
 	case "fwdnop":
@@ -441,6 +447,9 @@ var representative = map[string]string{
 }
 
 func init() {
+	for _, b := range []string{"fwdnilslot", "fwdnilafter", "fwdniltwice", "fwdnil2"} {
+		representative[b+"-"] = "slot-"
+	}
 	for base := range wrapperBases {
 		representative[base+"-"] = "slot-"
 	}
@@ -629,7 +638,7 @@ func enumerate(n int, kinds []string) [][]T {
 // randomForest draws a tree emphasising an unconsumed block followed by a
 // slot-bearing sibling or descendant.
 func randomForest(r *rand.Rand, budget *int, depth int) []T {
-	leaky := []string{"once+", "once+", "flush+", "fnign+", "ign+", "inner+", "oncec+", "join+", "fnget+", "fncap+", "fncap2+", "fndrop+", "capslot+", "capchain+", "fwdinner+", "fwdafter+", "fwdsame+", "fwdnop+", "fwd2+", "fwdign+"}
+	leaky := []string{"once+", "once+", "flush+", "fnign+", "ign+", "inner+", "oncec+", "join+", "fnget+", "fncap+", "fncap2+", "fndrop+", "capslot+", "capchain+", "fwdinner+", "fwdafter+", "fwdsame+", "fwdnop+", "fwd2+", "fwdign+", "fwdnilslot+", "fwdnilafter+", "fwdniltwice+", "fwdnil2+"}
 	slotty := []string{"slot-", "slot-", "twice-", "pass-", "after-", "legacy-", "once-", "flush-", "fnget-", "fncap-", "capchain-", "fwdslot-", "fwdafter-", "fwdinner-"}
 	var out []T
 	n := 1 + r.Intn(4)
@@ -984,7 +993,7 @@ func dbg(f string, a ...any) {
 // tier: everything except the forwarders whose generated callee only repeats
 // what fwdinner / fwdafter / fwdsame / fwdnop / fwd2 already exercise.
 func threeNodeKinds() []string {
-	skip := map[string]bool{"fwdslot": true, "fwdtwice": true, "fwdign": true, "fwdpass": true}
+	skip := map[string]bool{"fwdslot": true, "fwdtwice": true, "fwdign": true, "fwdpass": true, "fwdnilslot": true, "fwdniltwice": true, "fwdnil2": true}
 	var ks []string
 	for _, k := range allKinds {
 		if _, isWrapper := wrapperBases[k[:len(k)-1]]; !skip[k[:len(k)-1]] && !isWrapper {
@@ -999,7 +1008,7 @@ var reducedKinds = []string{"slot-", "slot+", "ign+", "twice-", "twice+", "pass-
 
 // Run is the C13 check.
 func Run(c *core.Ctx) {
-	c.Rule = "cases = call trees (forests of calls; kinds: generated callees slot/ign/twice/pass/inner/after and legacy call syntax, hand-written OnceHandle.Once, Once(WithComponent), templ.Flush, templ.Join, function components reading/ignoring children, function components capturing their children into a buffer of their own (written once, twice, discarded; hand-written and generated capture layers around a slot callee), generated wrapper templates whose call site has a special source shape (whitespace-only / Go-comment-only / HTML-comment-only block, exactly { children... }, twice, plus text, inside an if, block-less call followed by { children... } or { expr } on the next line; over slot/twice/ign callees), forwarding wrappers that hand their children (wrapped, unwrapped, replaced by nothing, through a chain of two) to a generated callee with WithChildren without clearing, WithChildren from code; each with and without a block) rendered by one compiled interpreter whose dispatcher is expanded inline for 3 levels; oracle = reference call-tree semantics, exact marker structure on the HTML5 token stream; exhaustive part: every forest with <=2 nodes over all kinds, 3 nodes over all kinds but four redundant forwarders and the source-shape wrappers (thorough: all kinds) and over a reduced kind set (N=4, thorough); non-trivial = tree with a block given to a wrapper/ignoring callee followed in preorder by a block-less call to a slot-rendering callee; distinct by canonical tree text"
+	c.Rule = "cases = call trees (forests of calls; kinds: generated callees slot/ign/twice/pass/inner/after and legacy call syntax, hand-written OnceHandle.Once, Once(WithComponent), templ.Flush, templ.Join, function components reading/ignoring children, function components capturing their children into a buffer of their own (written once, twice, discarded; hand-written and generated capture layers around a slot callee), generated wrapper templates whose call site has a special source shape (whitespace-only / Go-comment-only / HTML-comment-only block, exactly { children... }, twice, plus text, inside an if, block-less call followed by { children... } or { expr } on the next line; over slot/twice/ign callees), forwarding wrappers that hand their children (wrapped, unwrapped, replaced by nothing, replaced by nil, through a chain of two) to a generated callee with WithChildren without clearing, WithChildren from code; each with and without a block) rendered by one compiled interpreter whose dispatcher is expanded inline for 3 levels; oracle = reference call-tree semantics, exact marker structure on the HTML5 token stream; exhaustive part: every forest with <=2 nodes over all kinds, 3 nodes over all kinds but four redundant forwarders and the source-shape wrappers (thorough: all kinds) and over a reduced kind set (N=4, thorough); non-trivial = tree with a block given to a wrapper/ignoring callee followed in preorder by a block-less call to a slot-rendering callee; distinct by canonical tree text"
 	c.Assume("hand-written function components follow the documented protocol (GetChildren, then ClearChildren before rendering anything else)")
 	c.Assume("golang.org/x/net/html tokenizer")
 	e := build(c)
